@@ -6,25 +6,25 @@ sys.path.insert(0, V)
 props = [json.loads(l) for l in open(os.path.join(V, "properties.jsonl"))]
 
 TECH = {
- "C01": "string-language inclusion on automata built from the encoder's quoting predicates and the decoder's classifiers; language model of the lexer's end-of-lexeme decision vs the number/time texts the encoders write; isinstance-dispatch order; flow-sensitive taint of quoted text to textwrap; inclusion of the number / time text languages the writers produce in the reader's classes; keyword tables as the grammar class bodies build them (derived table, group/object disjointness); the strict reader lexes the text unchanged (parameter-identity of the lexer's text argument); isinstance tests on decoded values respect real_cls",
- "C02": "string-language intersection (bare-written strings vs the permissive reader's classes); regex first-character sets of the whole-document rewrite; table inclusion; lexer end-of-lexeme language model for written numbers and times; written-number language vs the permissive reader's decimal class; explicit-state exploration of the lexer step function (a non-white-space character is kept in the lexeme); sign test of the zone offset not on an abs() value; language of the units token the default reader accepts",
+ "C01": "string-language inclusion on automata built from the encoder's quoting predicates and the decoder's classifiers; language model of the lexer's end-of-lexeme decision vs the number/time texts the encoders write; isinstance-dispatch order; flow-sensitive taint of quoted text to textwrap; inclusion of the number / time text languages the writers produce in the reader's classes; keyword tables as the grammar class bodies build them (derived table, group/object disjointness); the strict reader lexes the text unchanged (parameter-identity of the lexer's text argument); isinstance tests on decoded values respect real_cls; productions add pairs with append only; fixed quote characters are absent from the text they wrap",
+ "C02": "string-language intersection (bare-written strings vs the permissive reader's classes); regex first-character sets of the whole-document rewrite; table inclusion; lexer end-of-lexeme language model for written numbers and times; written-number language vs the permissive reader's decimal class; explicit-state exploration of the lexer step function (a non-white-space character is kept in the lexeme); sign test of the zone offset not on an abs() value; language of the units token the default reader accepts; fixed quote characters are absent from the text they wrap",
  "C03": "grammar table consistency (derived keyword tables, reserved characters, lexer/decoder regex language inclusion); permissive-delegation language check; language model of the lexer's end-of-lexeme decision; guard/return analysis of aggregation_cls; path conditions of Token.__init__; inclusion of the specification's based-integer language in the decoder's; single-character table entries; entry points hand the text on unchanged (outcome terms); lexer call arguments; container-class keywords of the pvl.new loaders",
  "C04": "token-protocol abstract interpretation (skip-before-read on all paths) + comment-table/lexer agreement + language equality of Token.is_comment/is_space with the grammar tables + path conditions of Token.__init__ + explicit-state exploration of the comment automaton (lexer step function interpreted over delimiter characters); path walk of the skip helpers' token loops with is_WSC() as tracked fact; grammar table characters within char_allowed (interval analysis); single-character table entries; explicit-state transition table of the preservation states; line-end translation of the command-line input and of every route of get_text_from",
  "C05": "token-stream protocol abstract interpretation of the recursive-descent parser (push-back, LexerError pass-through, fall-through) on all paths; language equality of the silently skipped token classes and of the accepted units token (DFA pre-images of strip/slice/partition); exception-lattice check of QuantityError against the parser's handlers; StopIteration from the block productions not caught below parse(); interval analysis of char_allowed",
- "C06": "exception-propagation and loop-progress analysis on the token-protocol abstract interpreter, enumerated may-raise sources; who-may-attach-a-token rule for ParseError; explicit-state exploration of the lexer step function at the ends of the text (no TypeError from a missing neighbour); constant-index subscripts of texts on the entry path dominated by a non-emptiness test; forwarded parameters land in the same-named parameter of the callee; grammar patterns a dialect sets to None are guarded where used; substitute classes called positionally",
+ "C06": "exception-propagation and loop-progress analysis on the token-protocol abstract interpreter, enumerated may-raise sources; who-may-attach-a-token rule for ParseError; explicit-state exploration of the lexer step function at the ends of the text (no TypeError from a missing neighbour); constant-index subscripts of texts on the entry path dominated by a non-emptiness test; forwarded parameters land in the same-named parameter of the callee; grammar patterns a dialect sets to None are guarded where used; substitute classes called positionally; operations on the caller's real class stay inside the InvalidOperation handler",
  "C08": "who-may-construct + def-use of the line number + MRO resolution of the hooks + regex syntax-tree check of the whole-document rewrite + sibling agreement of the repair hook with parse_assignment_statement (production call sequence) + outcome terms of the entry points (the parser numbers the caller's text); store-on-the-returned-instance check of the placeholder's constructor; linear form of the position handed to the '=' search; lexer works on the caller's text; paired writes of the container mutators the repair hook uses; loop-flag / hook-result agreement of parse_module; no regex flag in a count position",
- "C09": "token-protocol abstract interpretation (nothing pulled after END) + path-forking outcome-term enumeration of the entry points (forwarding, decoding, writes) + laziness checks + taint of the saved stream position to seek(); language inclusion of dash + each line-end form in the whole-document rewrite pattern; byte-level stream for the by-character fall-back; the value repair hook sends its token back before every return; positional forwarding order",
- "C10": "method-resolution provider table (MRO incl. dict/abc mix-ins) + paired-write path effects of every mutator + view interface check + no key-by-key re-lookup over a mapping's own keys + value-independent append; emptiness guard of storage deletes; identity-comparison scan of the container module; get() reads the first value; no None-sentinel for key presence; reduction / copy hooks do not share the item list; no mutable parameter default",
- "C11": "reduction-protocol rule for dict subclasses with split representation + fresh-list/no-alias check + no back-reference in instance state carried by the reduction + pairwise filling of copy hooks; identity-comparison scan and structural equality clause of the container; copy hooks build type(self); append / constructor total on keys, values and the empty list; no wholesale carry-over of the instance dictionary in copy hooks; __setstate__ restores attributes",
+ "C09": "token-protocol abstract interpretation (nothing pulled after END) + path-forking outcome-term enumeration of the entry points (forwarding, decoding, writes) + laziness checks + taint of the saved stream position to seek(); language inclusion of dash + each line-end form in the whole-document rewrite pattern; byte-level stream for the by-character fall-back; the value repair hook sends its token back before every return; positional forwarding order; no block keyword / END is a value for any decoder",
+ "C10": "method-resolution provider table (MRO incl. dict/abc mix-ins) + paired-write path effects of every mutator + view interface check + no key-by-key re-lookup over a mapping's own keys + value-independent append; emptiness guard of storage deletes; identity-comparison scan of the container module; get() reads the first value; no None-sentinel for key presence; reduction / copy hooks do not share the item list; no mutable parameter default; no tuple-only pair test",
+ "C11": "reduction-protocol rule for dict subclasses with split representation + fresh-list/no-alias check + no back-reference in instance state carried by the reduction + pairwise filling of copy hooks; identity-comparison scan and structural equality clause of the container; copy hooks build type(self); append / constructor total on keys, values and the empty list; no wholesale carry-over of the instance dictionary in copy hooks; __setstate__ restores attributes; __ne__ is the negation of __eq__",
  "C12": "structural checks of the encoder (fixed PDS3 configuration, delimiter control dependence, keyword pairing, guards dominating emission, character sweep) + taint to textwrap; delimiter emission depends on end_delimiter only (enclosing-test analysis); dialect encoders keep their own grammar class (constructor abstract interpretation); no key-by-key re-lookup; symbol length bound of is_symbol()",
  "C13": "parameter-mutation effect analysis of encoder methods (helpers attributed to their entry point) + effect summary of OrderedMultiDict.__setitem__ + paired-write effects of the container mutators + instance-state writes; documented assignment semantics of the container (structural); no mutation of a container inside a loop over its own view; in-place augmented assignment of class-level tables",
- "C14": "default-zone/leap-second/format tables; field-consumption, sign-alphabet and fraction-padding rules on the encode_time implementations (canonical form); path conditions of every return of the PDS3 time writer; writer/reader time-language inclusion; lexer end-of-lexeme language model for date/times; language of every text a time writer can return (all return paths) included in its reader's time language; outcome terms of decode_datetime; exact image of strip() on the written-time language with path facts on second/microsecond; two-digit time fields; isinstance dispatch order of encode_datetype; entry points forward the decoder; LexerError pass-through of the parser's handlers (token-protocol rule T2); by-name look-ups of grammar tables",
- "C15": "interval abstract interpretation of char_allowed over all code points; dominance of the character check in the lexer; def-use/linear-form check of error positions; explicit-state exploration of the lexer step function (characters outside the grammar's white space are kept); lexer gets the parser's grammar and the caller's text; parser built from a decoder alone uses that decoder's grammar; entry points (pvl and pvl.new) hand text and grammar on; byte-stream read loop of the by-character fall-back",
+ "C14": "default-zone/leap-second/format tables; field-consumption, sign-alphabet and fraction-padding rules on the encode_time implementations (canonical form); path conditions of every return of the PDS3 time writer; writer/reader time-language inclusion; lexer end-of-lexeme language model for date/times; language of every text a time writer can return (all return paths) included in its reader's time language; outcome terms of decode_datetime; exact image of strip() on the written-time language with path facts on second/microsecond; two-digit time fields; isinstance dispatch order of encode_datetype; entry points forward the decoder; LexerError pass-through of the parser's handlers (token-protocol rule T2); by-name look-ups of grammar tables; two-character hour/minute/second fragments of the time patterns",
+ "C15": "interval abstract interpretation of char_allowed over all code points; dominance of the character check in the lexer; def-use/linear-form check of error positions; explicit-state exploration of the lexer step function (characters outside the grammar's white space are kept); lexer gets the parser's grammar and the caller's text; parser built from a decoder alone uses that decoder's grammar; entry points (pvl and pvl.new) hand text and grammar on; byte-stream read loop of the by-character fall-back; ParseError only where the token stream is exhausted",
  "C16": "instance-state effect analysis (attributes written on per-call paths must be reset in the entry point); shared-state write scan; no mutable parameter default",
- "C17": "delegation check of token predicates + language equivalence of Token.is_unquoted_string and the decoder's unquoted-string class; bare-string inclusion; constructor abstract interpretation: one grammar per reader; textwrap flags of the wrapping step",
+ "C17": "delegation check of token predicates + language equivalence of Token.is_unquoted_string and the decoder's unquoted-string class; bare-string inclusion; constructor abstract interpretation: one grammar per reader; textwrap flags of the wrapping step; quoting decisions do not classify the text with float()/int() themselves",
  "C18": "who-constructs check (only real_cls/quantity_cls/modcls/grpcls/objcls on value paths) + isinstance(float) scan on decoded values + guard/return analysis of aggregation_cls + exception-lattice check of QuantityError + unconverted collection of parsed elements in sets/sequences; keyword tables (no begin keyword names both a group and an object); instance-state effects of the decoder and parser families; forwarding order of the hook classes; entry points reach the parser for every text",
  "C19": "sibling comparison of pvl.new against pvl on outcome terms of the entry points + container-family discrimination of isinstance tests + member provision table + documented list semantics of the default container family (structural); shared class-level state and memo scan of the parser/decoder/encoder families; no ==/!= between a container and a literal in parser/encoder/entry points; no mutation of a container inside a loop over its own view",
- "C20": "dispatch tables evaluated from the module top level (formats, dialects) + forwarding chain (canonical form) + outcome enumeration of pvl_flavor (verdict pair per exception class and handler) + per-file freshness of the results mapping + provider/consumer kind of the file arguments; symbolic list lengths of report cells vs widths; every writer returns the library's dump on every path; write forms of pvl.dump; the by-character fall-back never lets a UnicodeError out",
+ "C20": "dispatch tables evaluated from the module top level (formats, dialects) + forwarding chain (canonical form) + outcome enumeration of pvl_flavor (verdict pair per exception class and handler) + per-file freshness of the results mapping + provider/consumer kind of the file arguments; symbolic list lengths of report cells vs widths; every writer returns the library's dump on every path; write forms of pvl.dump; the by-character fall-back never lets a UnicodeError out; instance-state effects of the encoders the tools keep per dialect",
 }
 NA = {"C07": "every clause compares run-time values (idempotence of folding regexes as transducers, byte identity of a second dump); the only static necessary condition -- a bare-written string must not re-read as another type -- is rule S1, claimed under C01/C02/C17, not twice"}
 
